@@ -91,13 +91,12 @@ static void ticket_key_material(int k, unsigned char name[16], unsigned char sym
 
 /* the application's session ticket callback: runs with no library lock held (getTicketKeys releases g_sessTicketLock
    around it); the window is logged with two stamps */
-static int g_cb_usec = -1;
+static int g_cb_usec = -1, g_cb_supply = 0;
 static int32 ticket_cb(void *keys, unsigned char name[16], short found)
 {
     thr_t *t = g_me;
     long c0 = atomic_fetch_add(&g_clock, 1), c1;
-    int k = ((int) name[0] - 0xA0) / 7;
-    (void) keys;
+    int k = ((int) name[0] - 0xA0) / 7, supplied = 0;
     if (t)
     {
         struct timespec ts;
@@ -107,9 +106,22 @@ static int32 ticket_cb(void *keys, unsigned char name[16], short found)
         if (ts.tv_nsec) nanosleep(&ts, NULL);
         t->cbcalls++; t->cbfound = found ? 1 : 0;
     }
+    if (!found && g_cb_supply && k >= 0 && k < 64 && atomic_exchange(&g_loaded[k], 1) == 0)
+    {
+        /* the application has the key the library lacks (e.g. from a key server) and loads it - what the callback is for; the
+           library then looks for it at the end of the list */
+        unsigned char nm[16], sym[32], mac[32];
+        long a0 = atomic_fetch_add(&g_clock, 1), a1;
+        int32 lrc;
+        ticket_key_material(k, nm, sym, mac);
+        lrc = matrixSslLoadSessionTicketKeys((sslKeys_t *) keys, nm, sym, 32, mac, 32);
+        a1 = atomic_fetch_add(&g_clock, 1);
+        logev("{\"th\":%d,\"op\":\"keyadd\",\"seq\":-1,\"k\":%d,\"t0\":%ld,\"t1\":%ld,\"rcn\":%d}", t ? t->id : -1, k, a0, a1, (int) lrc);
+        if (lrc >= 0) supplied = 1; else atomic_store(&g_loaded[k], 0);
+    }
     c1 = atomic_fetch_add(&g_clock, 1);
     logev("{\"th\":%d,\"op\":\"cb\",\"k\":%d,\"found\":%d,\"t0\":%ld,\"t1\":%ld}", t ? t->id : -1, k, found ? 1 : 0, c0, c1);
-    return found ? PS_SUCCESS : PS_FAILURE;
+    return (found || supplied) ? PS_SUCCESS : PS_FAILURE;
 }
 
 /* shuttle bytes from src to dst; returns bytes moved; collects plaintext */
@@ -299,7 +311,7 @@ int main(int argc, char **argv)
         int t = atoi(line);
         char *sp = strchr(line, ' ');
         if (line[0] == '#' || !sp || t < 0 || t >= MAXT) continue;
-        if (!strncmp(sp + 1, "ticketcb", 8)) { g_cb_usec = atoi(sp + 9); continue; }
+        if (!strncmp(sp + 1, "ticketcb", 8)) { g_cb_usec = atoi(sp + 9); g_cb_supply = strstr(sp + 9, "supply") != NULL; continue; }
         if (g_thr[t].nops < MAXOPS) snprintf(g_thr[t].ops[g_thr[t].nops++], 96, "%s", sp + 1);
         if (t + 1 > n) n = t + 1;
     }
